@@ -261,8 +261,12 @@ class _Run:
         _BATON[0] = b
         self.errors = [None] * n
         node = self.node = p2p.Node()                       # __init__ opens no socket
-        node._msg_queue = SchedDeque(node._msg_queue)
-        node._registered_commands_to_handle = SchedList(node._registered_commands_to_handle)
+        # same content and same configuration (maxlen!) as the containers Node.__init__ made; a container of
+        # another type is left in place (then its operations are simply not scheduling points)
+        if type(node._msg_queue) is deque:
+            node._msg_queue = SchedDeque(node._msg_queue, node._msg_queue.maxlen)
+        if type(node._registered_commands_to_handle) is list:
+            node._registered_commands_to_handle = SchedList(node._registered_commands_to_handle)
         self.socks = []
         self.workers = []
         for t in range(n):
@@ -335,7 +339,7 @@ class _Run:
 
     def observe_raw(self):
         node = self.node
-        return (list(deque.__iter__(node._msg_queue)), [list(s.out) for s in self.socks],
+        return (list(iter(node._msg_queue)), [list(s.out) for s in self.socks],
                 [node._peer_data.get(t) for t in range(self.n)], list(self.errors))
 
     @staticmethod
@@ -485,16 +489,39 @@ def _nf(v):
     return norm(dec(enc(v)))
 
 
+_PARSE_KEYS = {}      # (command, raw payload) -> enc of the normal form of its expected parse
+_INDEX = {}           # id(prog) -> (prog, {(command, parse key): [raw payloads in program order]})
+
+
+def _parse_key(cmd, raw):
+    k = (cmd, raw)
+    v = _PARSE_KEYS.get(k)
+    if v is None:
+        if len(_PARSE_KEYS) > 20000:
+            _PARSE_KEYS.clear()
+        try:
+            v = enc(_nf(_plain(w.expected_parse(cmd, raw))))
+        except Exception:
+            v = "<not in the catalogue>"
+        _PARSE_KEYS[k] = v
+    return v
+
+
 def _matches(cmd, parsed, prog):
-    out = []
-    for (c, raw) in prog:
-        if bytes(c) == cmd:
-            try:
-                if _nf(_plain(w.expected_parse(cmd, bytes(raw)))) == norm(parsed):
-                    out.append(bytes(raw))
-            except Exception:
-                pass
-    return out
+    """the raw payloads of the messages of prog with this command whose expected parse is `parsed`, in order"""
+    ent = _INDEX.get(id(prog))
+    if ent is None or ent[0] is not prog:
+        if len(_INDEX) > 64:
+            _INDEX.clear()
+        idx = {}
+        for (c, raw) in prog:
+            c, raw = bytes(c), bytes(raw)
+            idx.setdefault((c, _parse_key(c, raw)), []).append(raw)
+        ent = _INDEX[id(prog)] = (prog, idx)
+    try:
+        return ent[1].get((cmd, enc(norm(parsed))), [])
+    except Exception:
+        return []
 
 
 def _raw_of(cmd, parsed, progs, peer=None, used=None):
@@ -613,6 +640,21 @@ def shrink(c):
     # drop the last thread when it has nothing to do (ids stay), a message, then schedule entries
     if n > 1 and not progs[-1]:
         yield case(c["cls"], "run", progs[:-1], [t for t in sched if t != n - 1], recv_pt)
+    total = sum(len(p) for p in progs)
+    if total > 40:
+        # large programs: remove blocks of messages (halves ... sixteenths), never one by one
+        if sched:
+            yield case(c["cls"], "run", progs, [], recv_pt, timeout=300.0)
+        for t in range(n):
+            L = len(progs[t])
+            for parts in (2, 4, 16):
+                size = max(1, L // parts)
+                for start in range(0, L, size):
+                    if size < L:
+                        p2 = [list(p) for p in progs]
+                        del p2[t][start:start + size]
+                        yield case(c["cls"], "run", p2, sched, recv_pt, timeout=300.0)
+        return
     for t in range(n):
         for i in range(len(progs[t])):
             p2 = [list(p) for p in progs]
@@ -712,6 +754,10 @@ def _msg(kind, k):
         return (b"ping", (1000 + k).to_bytes(4, "little"))
     if kind == "version":
         return (b"version", w.version_payload(k))
+    if kind == "version-noua":          # a legal version message without a user agent (user_agent_bytes = 0)
+        return (b"version", w.version_payload(k, "empty"))
+    if kind == "version-longua":        # ... with a 200-byte user agent
+        return (b"version", w.version_payload(k, "long"))
     if kind == "verack":
         return (b"verack", b"")
     if kind == "inv":
@@ -731,7 +777,7 @@ def _progs(kinds_per_thread):
 
 def _cls_of(kinds_per_thread):
     flat = [k for ks in kinds_per_thread for k in ks]
-    h = sum(1 for k in flat if k in ("ping", "ping-short", "version", "verack"))
+    h = sum(1 for k in flat if k in ("ping", "ping-short", "version", "version-noua", "version-longua", "verack"))
     return "all-handled" if h == len(flat) else ("none-handled" if h == 0 else "mixed")
 
 
@@ -771,9 +817,11 @@ def gen_cases(rng, tier):
         n = len(progs)
         sched = [rng.choice(list(range(n)) + [n, n + 3, -1]) for _ in range(rng.randrange(0, 25))]
         out.append(case("idle-steps", "run", progs, sched, i % 2 == 0))
-    # --- exhaustive: 2 threads x 1 message, all 36 pairs, all schedules, both granularities ---
-    for a in A:
-        for b in A:
+    # --- exhaustive: 2 threads x 1 message, all 64 pairs (the six kinds + the version variants), all schedules,
+    #     both granularities ---
+    AV = A + ("version-noua", "version-longua")
+    for a in AV:
+        for b in AV:
             for mode in (FINE, EAGER):
                 out.append(case("sweep-2x1-" + _cls_of([[a], [b]]), "sweep", _progs([[a], [b]]), 10 ** 6, 0, mode))
     # --- exhaustive: 2 threads x <= 2 messages (steps test / append / send; thorough: every pair of programs) ---
@@ -783,6 +831,11 @@ def gen_cases(rng, tier):
     if not T:
         pairs = rng.sample(pairs, 60)
         pairs += [(["ping", "inv"], ["inv", "ping"]), (["version", "ping"], ["addr", "unknown"])]
+    # ... and pairs of programs that contain a version without / with a long user agent
+    progsv = [p for p in [[a] for a in AV] + [[a, b] for a in AV for b in AV] if any(k.startswith("version-") for k in p)]
+    for _ in range(400 if T else 16):
+        p, q = rng.choice(progsv), rng.choice(progs1)
+        pairs.append((p, q) if rng.random() < 0.5 else (q, p))
     for (p, q) in pairs:
         out.append(case("sweep-2x2-" + _cls_of([p, q]), "sweep", _progs([p, q]), 10 ** 6, 0, EAGER))
     for (p, q) in fine_pairs:                                   # with the recv steps too (924 schedules each)
@@ -792,12 +845,13 @@ def gen_cases(rng, tier):
     fine_triples = rng.sample(triples, 30 if T else 1)
     if not T:
         triples = rng.sample(triples, 25) + [("ping", "inv", "version")]
+    triples += [tuple(rng.choice(AV) for _ in range(3)) for _ in range(60 if T else 5)]
     for tr in triples:
         out.append(case("sweep-3x1-" + _cls_of([[x] for x in tr]), "sweep", _progs([[x] for x in tr]), 10 ** 6, 0, EAGER))
     for tr in fine_triples:
         out.append(case("sweep-3x1-fine-" + _cls_of([[x] for x in tr]), "sweep", _progs([[x] for x in tr]), 10 ** 6, 0, FINE))
     # --- sampled: 3 threads x 3 messages (and 2 x 3, 3 x 2) ---
-    A2 = A + ("ping-short",)
+    A2 = A + ("ping-short", "version-noua", "version-longua")
     for i in range(240 if T else 12):
         shape = [(3, 3), (3, 3), (2, 3), (3, 2)][i % 4]
         ks = [[rng.choice(A2) for _ in range(shape[1])] for _ in range(shape[0])]
@@ -814,6 +868,23 @@ def gen_cases(rng, tier):
         if i % 3 == 0:
             base = base[:rng.randrange(0, len(base) + 1)]       # the tail is left to the round robin
         out.append(case("run-%d-threads-%s" % (nthreads, _cls_of(ks)), "run", progs, base, mode))
+    # --- high volume: more than 1000 unhandled messages in total (1..3 peers, recv not a scheduling point, coarse
+    #     schedules): every one of them must be in the final queue exactly once, in its peer's sending order ---
+    def bulk(n, t):
+        ks = []
+        for i in range(n):
+            ks.append("ping" if i % 97 == 50 else ("version" if i % 211 == 100 else ("inv", "addr", "unknown")[(i + t) % 3]))
+        return ks
+    vol = [("volume-1-peer", [bulk(1100, 0)], [0] * 2300),                         # sequential
+           ("volume-2-peers", [bulk(650, 0), bulk(600, 1)], []),                    # round robin
+           ("volume-3-peers", [bulk(420, 0), bulk(380, 1), bulk(400, 2)],          # blocks of 50 grants per peer
+            [t for _ in range(20) for t in (2, 0, 1) for _ in range(50)])]
+    if T:
+        vol.append(("volume-3-peers", [bulk(900, 0), bulk(700, 1), bulk(800, 2)],
+                    [rng.randrange(3) for _ in range(5000)]))
+        vol.append(("volume-1-peer", [["inv"] * 2100], []))
+    for (cls, ks, sched) in vol:
+        out.append(case(cls, "run", _progs(ks), sched, EAGER, timeout=300.0))
     return out
 
 
